@@ -652,6 +652,10 @@ func trivial(line string) bool {
 func answerClass(line, ans string) string {
 	kind := line[:strings.IndexByte(line+" ", ' ')]
 	switch {
+	case kind == "asid" && ans != "none" && !strings.HasPrefix(ans, "panic"):
+		return "asid.accepted"
+	case kind == "nextn" || kind == "recv" || kind == "consts" || kind == "global":
+		return kind
 	case ans == "1":
 		return kind + ".accept"
 	case ans == "0":
